@@ -59,7 +59,21 @@ const char *const kKindName[] = {"valid", "NXDOMAIN", "SERVFAIL", "FORMERR", "RE
 const size_t kRecvBuf = 4096;
 const size_t kOverSizes[] = {4096, 4097, 4098, 4100, 4112, 4200, 5000, 6000, 8192, 9000, 4095, 4090};
 const char *const kDomains[] = {"www.example.com", "a.b", "localhost", "mail.example.org", "x.y.z.example.net"};
-const int kNDomains = 5, kMaxLookups = 24, kMaxDatagrams = 60;
+const int kNDomains = 5, kMaxLookups = 32, kMaxDatagrams = 60;
+// What a completion callback does (reply path and timeout path alike), chosen per lookup by `request _ then`:
+enum { A_REQ, A_CANCEL_SELF, A_CANCEL_OTHER };
+const std::vector<int> kScripts[] = {
+  /*0*/ {}, /*1*/ {A_REQ}, /*2*/ {A_CANCEL_OTHER}, /*3*/ {A_CANCEL_SELF}, /*4*/ {A_CANCEL_SELF, A_REQ}, /*5*/ {A_REQ, A_CANCEL_SELF},
+  /*6*/ {A_CANCEL_SELF, A_REQ, A_REQ}, /*7*/ {A_REQ, A_REQ}, /*8*/ {A_CANCEL_OTHER, A_CANCEL_SELF, A_REQ}, /*9*/ {A_REQ, A_CANCEL_SELF, A_REQ},
+  /*10*/ {A_CANCEL_SELF, A_CANCEL_OTHER}, /*11*/ {A_CANCEL_SELF, A_CANCEL_SELF},
+};
+const int kNScripts = 12;
+const int kNestedThen[kNScripts] = {0, 0, 0, 0, 3, 3, 4, 1, 3, 5, 0, 0};   // script of a lookup started by a callback running script i (chains end after 3 levels)
+// server-list modes (`cfg n mode`): 0 n loopback servers; 1 only 255.255.255.255 (sendto on the non-broadcast socket fails with EACCES for every server);
+// 2 / 3 the loopback servers plus 255.255.255.255 first / last (some sends fail); 4 no server configured
+enum { M_NORMAL, M_ALLFAIL, M_MIXED_FIRST, M_MIXED_LAST, M_EMPTY, NMODES };
+const char *const kUnsendable = "255.255.255.255";
+inline std::string longName() { std::string n; while (n.size() < 70000) n += "abcdefghijklmnopqrstuvwxyz0123456789."; return n + "test"; }   // query > 64 KB: sendto fails with EMSGSIZE
 typedef DnsRequest::Result::Status S;
 
 const char *statusName(S s) {
@@ -75,6 +89,10 @@ struct Lookup {
   std::set<int> failed_servers; int failure_datagrams = 0;
   std::set<int> replied_servers;
   bool timed_out = false;
+  bool started = true;         // request() returned an id (0 = "no lookup started": no callback may ever come, nothing may be outstanding)
+  bool longname = false;       // 70 KB name: the query cannot be sent to anybody
+  uint16_t would_be = 0;       // not started: the id the lookup would have got
+  int depth = 0;
   bool cut_ignored = false;    // a reply cut off by the receive buffer was (rightly) ignored for this lookup
 };
 struct Datagram {
@@ -91,7 +109,9 @@ struct World {
   vloop::Clock clk;
   std::unique_ptr<tbox::event::Loop> loop;
   std::unique_ptr<DnsRequest> dns;
-  int nsrv = 2;
+  int nsrv = 2;                // harness servers on loopback
+  int nconf = 2, mode = M_NORMAL;   // servers configured in the DnsRequest
+  uint16_t last_id = 0;
   int sfd[3] = {-1, -1, -1};
   sockaddr_in saddr[3];
   bool have_client = false; sockaddr_in client; int cfd = -1;
@@ -103,7 +123,9 @@ struct World {
   // statistics
   bool st_timeout = false, st_cancel = false, st_cancel_stale = false, st_dup = false, st_multi = false, st_stale = false, st_unknown = false, st_notreply = false,
        st_allfail = false, st_partfail = false, st_nested = false, st_success = false, st_domainerr = false, st_fail = false, st_queued_while_idle = false, st_dupfail = false,
-       st_cancel_in_cb = false, st_over = false, st_over_cut = false, st_over_whole = false, st_over_then_done = false;
+       st_cancel_in_cb = false, st_over = false, st_over_cut = false, st_over_whole = false, st_over_then_done = false,
+       st_cancel_self = false, st_cancel_self_then_req = false, st_req_then_cancel_self = false, st_self_timeout = false, st_self_reply = false, st_chain3 = false,
+       st_not_started = false, st_unsendable_all = false, st_unsendable_some = false, st_longname = false;
   int unconfirmed = 0;
 
   World() : clk(1000000) {}
@@ -111,13 +133,14 @@ struct World {
 
   void fail(const std::string &m) { if (err.empty()) { err = m; fprintf(stderr, "VERIF-FAIL-DIAG lookup_lifecycle: %s\n", m.c_str()); } }
   int64_t now() const { return (int64_t)clk.now; }
-  bool outstanding(const Lookup &l) const { return !l.cancelled && l.done == 0; }
+  bool outstanding(const Lookup &l) const { return l.started && !l.cancelled && l.done == 0; }
   bool anyOutstanding() const { for (auto &l : lk) if (outstanding(l)) return true; return false; }
-  std::string nameOf(int j) const { return "lookup #" + std::to_string(j) + " (id " + std::to_string(lk[(size_t)j].id) + ", \"" + kDomains[lk[(size_t)j].domain] + "\")"; }
+  std::string nameOf(int j) const { return "lookup #" + std::to_string(j) + " (id " + std::to_string(lk[(size_t)j].id) + ", \"" + (lk[(size_t)j].longname ? "<70 KB name>" : kDomains[lk[(size_t)j].domain]) + "\")"; }
 
   // ------------------------------------------------------------------------------------------------- set-up
-  std::string setup(int n) {
-    nsrv = n;
+  std::string setup(int n, int m) {
+    mode = m;
+    nsrv = (m == M_ALLFAIL || m == M_EMPTY) ? 0 : n;
     unsigned pid = (unsigned)getpid();
     for (int attempt = 0; attempt < 40; ++attempt) {
       unsigned A = 1 + (pid >> 8) % 250, B = (pid + (unsigned)attempt * 7) & 0xff;
@@ -135,7 +158,12 @@ struct World {
     }
     loop.reset(tbox::event::Loop::New());
     DnsRequest::IPAddressVec ips;
+    if (mode == M_MIXED_FIRST) ips.push_back(IPAddress::FromString(kUnsendable));
     for (int k = 0; k < nsrv; ++k) ips.push_back(IPAddress(saddr[k].sin_addr.s_addr));
+    if (mode == M_MIXED_LAST) ips.push_back(IPAddress::FromString(kUnsendable));
+    if (mode == M_ALLFAIL) for (int k = 0; k < 1 + n % 2; ++k) ips.push_back(IPAddress::FromString(kUnsendable));
+    nconf = (int)ips.size();
+    st_unsendable_all = mode == M_ALLFAIL; st_unsendable_some = mode == M_MIXED_FIRST || mode == M_MIXED_LAST;
     dns.reset(new DnsRequest(loop.get(), ips));
     return "";
   }
@@ -157,6 +185,7 @@ struct World {
   void onDone(int j, const DnsRequest::Result &r) {
     Lookup &L = lk[(size_t)j];
     std::string got = std::string(statusName(r.status)) + " with " + std::to_string(r.a_vec.size()) + " address(es), " + std::to_string(r.cname_vec.size()) + " cname(s)";
+    if (!L.started) { L.done++; fail("callback invoked (" + got + ") for " + nameOf(j) + ", which request() reported as not started (it returned 0, the caller has no id to cancel)"); return; }
     if (L.done++ > 0) { fail("callback of " + nameOf(j) + " invoked a second time (" + got + ")"); return; }
     if (L.cancelled) { fail("callback of " + nameOf(j) + " invoked (" + got + ") although the lookup had been cancelled"); return; }
     if (cur) {
@@ -166,7 +195,7 @@ struct World {
       if (!d.exp_complete || d.lookup != j) {
         fail(nameOf(j) + " completed (" + got + ") during the delivery of a " + what + ", which must not complete it" +
              (d.bytes.size() > kRecvBuf ? " (the datagram has " + std::to_string(d.bytes.size()) + " bytes; the " + std::to_string(kRecvBuf) + " bytes the socket's receive buffer holds end inside a record, i.e. what was received is a cut-off reply)" : std::string()) +
-             (d.kind == K_SERVFAIL || d.kind == K_REFUSED ? " (server-failure replies so far from " + std::to_string(L.failed_servers.size()) + " of " + std::to_string(nsrv) + " servers)" : ""));
+             (d.kind == K_SERVFAIL || d.kind == K_REFUSED ? " (server-failure replies so far from " + std::to_string(L.failed_servers.size()) + " of " + std::to_string(nconf) + " servers)" : ""));
       } else {
         d.observed = true;
         if (L.cut_ignored && d.kind == K_VALID) st_over_then_done = true;
@@ -192,29 +221,57 @@ struct World {
       else if (waited <= 4000) fail(nameOf(j) + " timed out " + std::to_string(waited) + " ms after request(); the documented timeout is 5 checks 1 s apart (more than 4 s)");
       else if (prev_now - L.t_issue >= 5000) fail(nameOf(j) + " timed out " + std::to_string(waited) + " ms after request(), but was already due one clock step earlier (" + std::to_string(prev_now - L.t_issue) + " ms)");
     }
-    // follow-up action from inside the callback
-    if (L.then == 1 && (int)lk.size() < kMaxLookups) { st_nested = true; issue((j + 1) % kNDomains, 0, true); }
-    if (L.then == 2) {
-      for (size_t k = 0; k < lk.size(); ++k) if ((int)k != j && outstanding(lk[k])) {
-        st_cancel_in_cb = true;
-        bool ok = dns->cancel(lk[k].id);
-        lk[k].cancelled = true;
-        if (!ok) fail("cancel() of outstanding " + nameOf((int)k) + " (from inside another lookup's callback) returned false");
-        break;
+    // scripted follow-up actions from inside the callback (the closure of the callback is not touched after this point: cancelling the
+    // lookup that is being completed destroys the std::function that is executing)
+    const bool in_delivery = cur != nullptr;
+    int self_cancels = 0, reqs = 0; bool req_after_self = false, self_after_req = false;
+    for (int act : kScripts[L.then]) {
+      if (!err.empty()) break;
+      if (act == A_REQ) {
+        if ((int)lk.size() >= kMaxLookups) continue;
+        st_nested = true; ++reqs; if (self_cancels) req_after_self = true;
+        if (L.depth >= 1) st_chain3 = true;
+        issue((j + 1 + reqs - 1) % kNDomains, kNestedThen[L.then], true, false, L.depth + 1);
+      } else if (act == A_CANCEL_SELF) {
+        // Not fixed by the statement what the first call returns (the lookup is just being completed); a second call finds nothing.
+        bool ok = dns->cancel(L.id);
+        if (self_cancels > 0 && ok) fail("the second cancel() of " + nameOf(j) + " from inside its own callback returned true");
+        ++self_cancels; st_cancel_self = true; if (reqs) self_after_req = true;
+        (in_delivery ? st_self_reply : st_self_timeout) = true;
+      } else {
+        for (size_t k = 0; k < lk.size(); ++k) if ((int)k != j && outstanding(lk[k])) {
+          st_cancel_in_cb = true;
+          bool ok = dns->cancel(lk[k].id);
+          lk[k].cancelled = true;
+          if (!ok) fail("cancel() of outstanding " + nameOf((int)k) + " (from inside another lookup's callback) returned false");
+          break;
+        }
       }
     }
+    if (req_after_self) st_cancel_self_then_req = true;
+    if (self_after_req) st_req_then_cancel_self = true;
   }
 
-  void issue(int domain, int then, bool nested) {
+  void issue(int domain, int then, bool nested, bool longname, int depth) {
     int j = (int)lk.size();
     lk.push_back(Lookup());
-    lk.back().domain = domain; lk.back().then = then; lk.back().t_issue = now(); lk.back().nested = nested;
-    uint16_t id = dns->request(DomainName(kDomains[domain]), [this, j](const DnsRequest::Result &r) { onDone(j, r); });
+    lk.back().domain = domain; lk.back().then = then; lk.back().t_issue = now(); lk.back().nested = nested; lk.back().longname = longname; lk.back().depth = depth;
+    if (longname) st_longname = true;
+    // the lambda copies its captures into the call before anything can destroy the closure (see onDone)
+    uint16_t id = dns->request(DomainName(longname ? longName() : std::string(kDomains[domain])), [this, j](const DnsRequest::Result &r) { onDone(j, r); });
     lk[(size_t)j].id = id;
-    if (id == 0) { fail("request() returned 0 although servers are configured"); return; }
+    if (id == 0) {
+      // "no lookup started": allowed when nothing is configured or the query could not be sent to anybody; then nothing may exist
+      Lookup &L = lk[(size_t)j];
+      L.started = false; L.would_be = (uint16_t)(last_id + 1); st_not_started = true;
+      if (nsrv > 0 && !longname) { fail("request() returned 0 although the query can be sent to " + std::to_string(nsrv) + " configured server(s)"); return; }
+      if (dns->isRunning(L.would_be)) fail("request() returned 0 (no lookup started), yet isRunning(" + std::to_string(L.would_be) + "), the id it would have had, is true");
+      return;
+    }
+    if (id > last_id) last_id = id;
     for (int k = 0; k < j; ++k) if (lk[(size_t)k].id == id) fail("request() returned id " + std::to_string(id) + " twice");
-    // every server must have got the query
-    for (int s = 0; s < nsrv; ++s) {
+    // every reachable server must have got the query (a 70 KB query reaches nobody)
+    for (int s = 0; s < nsrv && !longname; ++s) {
       uint8_t buf[600]; sockaddr_in from; socklen_t fl = sizeof from; ssize_t n = -1;
       for (int spin = 0; spin < 20000; ++spin) {
         n = ::recvfrom(sfd[s], buf, sizeof buf, 0, (sockaddr *)&from, &fl);
@@ -313,7 +370,7 @@ struct World {
       if (L.failed_servers.count(d.server)) st_dupfail = true;
       L.failed_servers.insert(d.server); L.failure_datagrams++;
       size_t have = kServfailPerServer ? L.failed_servers.size() : (size_t)L.failure_datagrams;
-      if (have >= (size_t)nsrv) { d.exp_complete = true; d.exp_status = S::kAllDnsFail; st_allfail = true; } else st_partfail = true;
+      if (have >= (size_t)nconf) { d.exp_complete = true; d.exp_status = S::kAllDnsFail; st_allfail = true; } else st_partfail = true;
     }
   }
 
@@ -342,7 +399,7 @@ struct World {
     cur = nullptr;
     if (D.exp_complete && !D.observed)
       fail(std::string("a ") + kKindName[D.kind] + " reply from server " + std::to_string(D.server) + " for outstanding " + nameOf(D.lookup) + " did not complete it" +
-           (D.exp_status == S::kAllDnsFail ? " (every one of the " + std::to_string(nsrv) + " servers has now reported a failure)" : ""));
+           (D.exp_status == S::kAllDnsFail ? " (every one of the " + std::to_string(nconf) + " servers has now reported a failure)" : ""));
   }
 
   void checkRunning(const char *after) {
@@ -369,8 +426,9 @@ std::string run(const Scenario &s, CaseInfo &info) {
   World W;
   int nsrv = 2;
   size_t first = 0;
-  if (!s.ops.empty() && s.ops[0].code == CFG) { nsrv = (int)s.ops[0].in(0, 1, 3); first = 1; }
-  std::string e = W.setup(nsrv);
+  int mode = M_NORMAL;
+  if (!s.ops.empty() && s.ops[0].code == CFG) { nsrv = (int)s.ops[0].in(0, 1, 3); mode = (int)s.ops[0].in(1, 0, NMODES - 1); first = 1; }
+  std::string e = W.setup(nsrv, mode);
   if (!e.empty()) return e;
   W.prev_now = W.now();
   for (size_t i = first; i < s.ops.size() && W.err.empty(); ++i) {
@@ -378,7 +436,7 @@ std::string run(const Scenario &s, CaseInfo &info) {
     const char *what = "?";
     switch (op.code) {
       case REQUEST: what = "request";
-        if ((int)W.lk.size() < kMaxLookups) W.issue((int)op.in(0, 0, kNDomains - 1), (int)op.in(1, 0, 2), false);
+        if ((int)W.lk.size() < kMaxLookups) W.issue((int)op.in(0, 0, kNDomains - 1), (int)op.in(1, 0, kNScripts - 1), false, op.in(2, 0, 1) == 1, 0);
         W.passes(2);
         break;
       case CANCEL: { what = "cancel";
@@ -396,11 +454,11 @@ std::string run(const Scenario &s, CaseInfo &info) {
         W.passes(2);
         break; }
       case REPLY: { what = "reply";
-        if (W.lk.empty()) break;
+        if (W.lk.empty() || W.nsrv == 0) break;
         Datagram d; d.server = (int)op.in(0, 0, W.nsrv - 1); d.kind = (int)op.in(2, 0, NKINDS - 1);
         size_t j = W.lk.size() - 1 - (size_t)op.in(1, 0, (int64_t)W.lk.size() - 1);
         int variant = (int)op.in(3, 0, 59);
-        uint16_t id = W.lk[j].id;
+        uint16_t id = W.lk[j].started ? W.lk[j].id : W.lk[j].would_be;   // not started: the id it would have had must be nobody's
         if (d.kind == K_UNKNOWNID) { static const uint16_t odd[] = {0, 0xffff, 0xaaaa}; id = variant % 4 == 3 ? (uint16_t)(W.lk.size() + 1000) : odd[variant % 4]; }
         d.id = id;
         d.bytes = W.buildReply(id, d.kind == K_UNKNOWNID ? K_VALID : d.kind, variant, d.server, W.lk[j].domain);
@@ -418,11 +476,11 @@ std::string run(const Scenario &s, CaseInfo &info) {
     W.checkRunning(what);
   }
   // final drain: well past every deadline
-  for (int round = 0; round < 3 && W.err.empty() && (round == 0 || W.anyOutstanding()); ++round) W.advance(6000);   // a timeout callback may issue one more lookup
+  for (int round = 0; round < 5 && W.err.empty() && (round == 0 || W.anyOutstanding()); ++round) W.advance(6000);   // a timeout callback may issue one more lookup
   W.checkRunning("the final drain");
   if (W.err.empty())
     for (size_t k = 0; k < W.lk.size(); ++k)
-      if (!W.lk[k].cancelled && W.lk[k].done != 1) { W.fail("after the final drain " + W.nameOf((int)k) + " has completed " + std::to_string(W.lk[k].done) + " times"); break; }
+      if (W.lk[k].started && !W.lk[k].cancelled && W.lk[k].done != 1) { W.fail("after the final drain " + W.nameOf((int)k) + " has completed " + std::to_string(W.lk[k].done) + " times"); break; }
   if (!W.err.empty()) return W.err;
   info.cls_if(W.st_timeout, "timeout"); info.cls_if(W.st_cancel, "cancel_outstanding"); info.cls_if(W.st_cancel_stale, "cancel_completed");
   info.cls_if(W.st_cancel_in_cb, "cancel_inside_callback"); info.cls_if(W.st_nested, "request_inside_callback");
@@ -431,6 +489,10 @@ std::string run(const Scenario &s, CaseInfo &info) {
   info.cls_if(W.st_partfail, "some_servers_failed"); info.cls_if(W.st_dupfail, "duplicate_failure_from_one_server");
   info.cls_if(W.st_success, "success"); info.cls_if(W.st_domainerr, "nxdomain"); info.cls_if(W.st_fail, "formerr");
   info.cls_if(W.st_queued_while_idle, "datagram_while_idle");
+  info.cls_if(W.st_cancel_self, "callback_cancels_own_lookup"); info.cls_if(W.st_self_reply, "own_cancel_on_reply_path"); info.cls_if(W.st_self_timeout, "own_cancel_on_timeout_path");
+  info.cls_if(W.st_cancel_self_then_req, "own_cancel_then_request"); info.cls_if(W.st_req_then_cancel_self, "request_then_own_cancel"); info.cls_if(W.st_chain3, "callback_chain_3_deep");
+  info.cls_if(W.st_unsendable_all, "all_servers_unsendable"); info.cls_if(W.st_unsendable_some, "some_servers_unsendable"); info.cls_if(W.st_longname, "query_too_long_to_send");
+  info.cls_if(W.st_not_started, "request_returned_0");
   info.cls_if(W.st_over, "oversized_datagram"); info.cls_if(W.st_over_cut, "oversized_cut_in_record_ignored"); info.cls_if(W.st_over_whole, "complete_reply_plus_trailing_bytes");
   info.cls_if(W.st_over_then_done, "valid_reply_completes_after_cut_off_one");
   if (W.unconfirmed) stats().counters["arrival_unconfirmed"] += (uint64_t)W.unconfirmed;
@@ -442,7 +504,7 @@ std::string run(const Scenario &s, CaseInfo &info) {
 SubDef def = [] {
   SubDef d; d.name = "lookup_lifecycle";
   d.op_names = {"cfg", "request", "cancel", "reply", "dup", "advance"};
-  d.op_arity = {1, 2, 2, 4, 1, 1};
+  d.op_arity = {2, 3, 2, 4, 1, 1};
   d.nt_rule = "history in which one lookup gets replies from at least two servers and some lookup is cancelled while outstanding or times out";
   d.run = run;
 #ifndef VERIF_ENGINE_FUZZ
@@ -451,14 +513,18 @@ SubDef def = [] {
     auto kind = rc::gen::weightedOneOf<int64_t>({{4, rc::gen::just<int64_t>(K_VALID)}, {2, rc::gen::just<int64_t>(K_NXDOMAIN)}, {8, rc::gen::just<int64_t>(K_SERVFAIL)}, {1, rc::gen::just<int64_t>(K_FORMERR)},
                                                   {4, rc::gen::just<int64_t>(K_REFUSED)}, {2, rc::gen::just<int64_t>(K_NOTREPLY)}, {2, rc::gen::just<int64_t>(K_UNKNOWNID)}, {4, rc::gen::just<int64_t>(K_OVERSIZED)}});
     auto adv = rc::gen::weightedOneOf<int64_t>({{3, range(0, 1000)}, {2, range(900, 1100)}, {2, range(3000, 4200)}, {1, range(4900, 5100)}, {1, range(0, 6000)}});
+    auto thenG = rc::gen::weightedOneOf<int64_t>({{6, rc::gen::just<int64_t>(0)}, {2, range(1, 2)}, {6, range(3, kNScripts - 1)}});
+    auto longG = rc::gen::weightedOneOf<int64_t>({{15, rc::gen::just<int64_t>(0)}, {1, rc::gen::just<int64_t>(1)}});
+    auto modeG = rc::gen::weightedOneOf<int64_t>({{20, rc::gen::just<int64_t>(M_NORMAL)}, {2, rc::gen::just<int64_t>(M_ALLFAIL)}, {2, rc::gen::just<int64_t>(M_MIXED_FIRST)},
+                                                   {2, rc::gen::just<int64_t>(M_MIXED_LAST)}, {1, rc::gen::just<int64_t>(M_EMPTY)}});
     auto opg = rc::gen::weightedOneOf<Op>({
-      {6, mkop(REQUEST, {range(0, kNDomains - 1), rc::gen::weightedOneOf<int64_t>({{5, rc::gen::just<int64_t>(0)}, {1, rc::gen::just<int64_t>(1)}, {1, rc::gen::just<int64_t>(2)}})})},
+      {6, mkop(REQUEST, {range(0, kNDomains - 1), thenG, longG})},
       {2, mkop(CANCEL, {recent, range(0, 3)})},
       {12, mkop(REPLY, {range(0, 2), recent, kind, range(0, 59)})},
       {3, mkop(DUP, {rc::gen::weightedOneOf<int64_t>({{4, rc::gen::just<int64_t>(0)}, {1, range(1, 5)}})})},
       {4, mkop(ADVANCE, {adv})},
     });
-    return scenarioOf(fixedOps({mkop(CFG, {rc::gen::weightedOneOf<int64_t>({{1, rc::gen::just<int64_t>(0)}, {3, rc::gen::just<int64_t>(1)}, {3, rc::gen::just<int64_t>(2)}})}), mkop(REQUEST, {range(0, kNDomains - 1), range(0, 2)})}), opsOf(opg));
+    return scenarioOf(fixedOps({mkop(CFG, {rc::gen::weightedOneOf<int64_t>({{1, rc::gen::just<int64_t>(0)}, {3, rc::gen::just<int64_t>(1)}, {3, rc::gen::just<int64_t>(2)}}), modeG}), mkop(REQUEST, {range(0, kNDomains - 1), thenG, longG})}), opsOf(opg));
   };
 #endif
   return d;
